@@ -24,6 +24,7 @@ too (last section: `recovered_axes_metres`, `local_within_10m_airborne/_surface`
 import Rs1090.Proofs.CprLocalSpec
 import Rs1090.Proofs.CprMetres
 import Rs1090.Proofs.CprFloat
+import Rs1090.Proofs.IeeeRound
 namespace Rs1090.Props.C05
 open Rs1090 Rs1090.Model.Cpr Rs1090.Spec.Cpr Rs1090.Proofs.Cpr
 
@@ -261,12 +262,17 @@ example : |rlat 17 1 (4981755 / 100000) - 49| < dlat 1 / 2 ∧
 example : airborneWithRef ⟨.odd, 21567, 81965⟩ 10 100
     = .ok (some ⟨(6868755 : Rat) / 966656, (92162025 : Rat) / 950272⟩) := by decide +kernel
 
-/-! ### the f64 argument, as theorems (no model of IEEE rounding)
+/-! ### the f64 argument, as theorems (for an abstract rounding `fl`, and for IEEE-754 binary64 `fl64`)
 
 `airborne_position_with_reference` (cpr.rs l.315-372) and `surface_position_with_reference` (l.380-437) compute
 in `f64`.  `Proofs/CprFloat.lean`: `F64Exact q` — `q` is a finite binary64 value; `Rounding fl` — the standard
 model of rounding as a HYPOTHESIS on an abstract `fl : ℚ → ℚ` (identity on `F64Exact` values, monotone,
-`|fl x − x| ≤ |x|·2⁻⁵³ + 2⁻¹⁰⁷⁵` for `|x| ≤ 2^1023`; the real instance, IEEE-754 round-to-nearest, is trusted);
+`|fl x − x| ≤ |x|·2⁻⁵³ + 2⁻¹⁰⁷⁵` for `|x| ≤ 2^1023`).  The real instance is no longer trusted:
+`Proofs/IeeeRound.lean` DEFINES IEEE-754 binary64 round-to-nearest-even `fl64 : ℚ → ℚ` (gradual underflow, no
+overflow to infinity — irrelevant here, every intermediate is below `2^40`) and PROVES `rounding_ieee :
+Rounding fl64`; each theorem taking `(R : Rounding fl)` has an unconditional `…_ieee` corollary for `fl := fl64`
+(what remains outside Lean: that the machine's `+ − × ÷`, `floor`, `u32 → f64` and literal parsing return
+`fl64` of the exact result — IEEE-754 conformance of hardware / LLVM / libm).
 `fDLat fl full m` (l.323-327 / 388-392), `fDLon fl full ni` (l.352 / 417), `fIdxArg fl ref d k` = the computed
 `0.5 + ref / d - cpr` and `fIdx` its floor (l.335, 360 / 400, 425), `fCoord fl d j k` = the computed
 `d * (j + cpr)` (l.337, 361 / 402, 426) — `fl` after EVERY operation; `full = 360` airborne, `90` surface.
@@ -274,9 +280,18 @@ Unlike global decoding, the zone indices here depend on an arbitrary `f64` refer
 away from the zone boundaries; what is exact unconditionally is stated by the `…_f64exact` theorems. -/
 
 open Rs1090.Proofs.CprFloat (F64Exact Rounding fDLat fDLon fIdxArg fIdx fCoord gIdxArg)
+open Rs1090.Proofs.IeeeRound (fl64)
 
-/-- the rounding hypothesis is satisfiable (`fl = id`; the intended instance is IEEE round-to-nearest) -/
+/-- the rounding hypothesis is satisfiable (`fl = id`; the intended instance is `rounding_ieee`) -/
 theorem rounding_satisfiable : Rounding id := Proofs.CprFloat.rounding_id
+
+/-- **IEEE-754 binary64 round-to-nearest-even is an instance of the rounding hypothesis** (`fl64` is defined in
+    `Proofs/IeeeRound.lean`: `fl64 q = rne (q / ulp q) · ulp q`, `ulp q = 2^(max ⌊log₂|q|⌋ (-1022) − 52)`) -/
+theorem rounding_ieee : Rounding fl64 := Proofs.IeeeRound.rounding_fl64
+
+/-- the value `fl64` returns is a finite binary64 value (no overflow below `2^1023`), so `fl64` is idempotent -/
+theorem fl64_f64exact (q : ℚ) (h : |q| ≤ 2 ^ 1023) : F64Exact (fl64 q) ∧ fl64 (fl64 q) = fl64 q :=
+  ⟨Proofs.IeeeRound.fl64_f64exact q h, Proofs.IeeeRound.fl64_idem q h⟩
 
 /-- l.320-321 / 385-386 `f64::from(x) / CPR_MAX`: a binary64 value for every 17-bit field -/
 theorem cpr_f64exact (n : ℕ) (hn : n < 131072) : F64Exact ((n : ℚ) / 131072) :=
@@ -297,6 +312,12 @@ theorem local_lat_even_f64exact {fl : ℚ → ℚ} (R : Rounding fl) (j : ℤ) (
     fCoord fl (fl (90 / 60)) j k = 90 / 60 * ((j : ℚ) + (k : ℚ) / 131072) :=
   Proofs.CprFloat.fCoord_even_eq R j k hj hk
 
+/-- `local_lat_even_f64exact` for IEEE-754 binary64 rounding, unconditionally -/
+theorem local_lat_even_f64exact_ieee (j : ℤ) (k : ℕ) (hj : |j| ≤ 1024) (hk : k < 131072) :
+    fCoord fl64 (fl64 (360 / 60)) j k = 360 / 60 * ((j : ℚ) + (k : ℚ) / 131072) ∧
+    fCoord fl64 (fl64 (90 / 60)) j k = 90 / 60 * ((j : ℚ) + (k : ℚ) / 131072) :=
+  local_lat_even_f64exact rounding_ieee j k hj hk
+
 /-- **Latitude of the local decoders under rounding** (`full = 360` airborne / `90` surface, either parity, any
     reference with `|latRef| ≤ 360`): (1) the computed floor argument is within `10⁻¹²` of the exact
     `1/2 + latRef/d_lat − cpr_lat`; (2) hence the computed zone index `j` is the rational model's unless that
@@ -314,6 +335,19 @@ theorem local_lat_float_close {fl : ℚ → ℚ} (R : Rounding fl) (full : ℚ) 
   obtain ⟨h1, h2, h3⟩ := Proofs.CprFloat.fDLat_err R full hf m
   rw [Proofs.CprFloat.latOf_eq]
   exact Proofs.CprFloat.local_axis R m.lat hm h2 h3 h1 href
+
+/-- **Latitude of the local decoders in IEEE-754 binary64**, unconditionally (`local_lat_float_close` with
+    `fl := fl64`) -/
+theorem local_lat_float_close_ieee (full : ℚ) (hf : full = 360 ∨ full = 90)
+    (m : Msg) (hm : m.lat < 131072) (latRef : ℚ) (href : |latRef| ≤ 360) :
+    |fIdxArg fl64 latRef (fDLat fl64 full m) m.lat - gIdxArg latRef (dLatOf full m) m.lat| ≤ 1 / 10 ^ 12 ∧
+    (((⌊gIdxArg latRef (dLatOf full m) m.lat⌋ : ℤ) : ℚ) + 1 / 10 ^ 12 ≤ gIdxArg latRef (dLatOf full m) m.lat →
+      gIdxArg latRef (dLatOf full m) m.lat + 1 / 10 ^ 12
+        < ((⌊gIdxArg latRef (dLatOf full m) m.lat⌋ : ℤ) : ℚ) + 1 →
+      fIdx fl64 latRef (fDLat fl64 full m) m.lat = ⌊gIdxArg latRef (dLatOf full m) m.lat⌋) ∧
+    |fCoord fl64 (fDLat fl64 full m) ⌊gIdxArg latRef (dLatOf full m) m.lat⌋ m.lat - latOf full m latRef|
+      ≤ 1 / 10 ^ 12 :=
+  local_lat_float_close rounding_ieee full hf m hm latRef href
 
 /-- **Longitude of the local decoders under rounding**, at any latitude `lat` (in particular the decoded one),
     any reference with `|lonRef| ≤ 360`: `d_lon = full / ni` with `ni = max(nl(lat) − i, 1) ∈ 1..59` exact,
@@ -333,6 +367,20 @@ theorem local_lon_float_close {fl : ℚ → ℚ} (R : Rounding fl) (full : ℚ) 
   rw [Proofs.CprFloat.lonOf_eq]
   exact Proofs.CprFloat.local_axis R m.lon hm h2 h3 h1 href
 
+/-- **Longitude of the local decoders in IEEE-754 binary64**, unconditionally (`local_lon_float_close` with
+    `fl := fl64`) -/
+theorem local_lon_float_close_ieee (full : ℚ) (hf : full = 360 ∨ full = 90)
+    (m : Msg) (hm : m.lon < 131072) (lat lonRef : ℚ) (href : |lonRef| ≤ 360) :
+    |fIdxArg fl64 lonRef (fDLon fl64 full (niOf (fmt m) lat)) m.lon - gIdxArg lonRef (dLonOf full m lat) m.lon|
+      ≤ 1 / 10 ^ 12 ∧
+    (((⌊gIdxArg lonRef (dLonOf full m lat) m.lon⌋ : ℤ) : ℚ) + 1 / 10 ^ 12 ≤ gIdxArg lonRef (dLonOf full m lat) m.lon →
+      gIdxArg lonRef (dLonOf full m lat) m.lon + 1 / 10 ^ 12
+        < ((⌊gIdxArg lonRef (dLonOf full m lat) m.lon⌋ : ℤ) : ℚ) + 1 →
+      fIdx fl64 lonRef (fDLon fl64 full (niOf (fmt m) lat)) m.lon = ⌊gIdxArg lonRef (dLonOf full m lat) m.lon⌋) ∧
+    |fCoord fl64 (fDLon fl64 full (niOf (fmt m) lat)) ⌊gIdxArg lonRef (dLonOf full m lat) m.lon⌋ m.lon
+        - lonOf full m lat lonRef| ≤ 1 / 10 ^ 12 :=
+  local_lon_float_close rounding_ieee full hf m hm lat lonRef href
+
 /-- hypotheses satisfiable and statement non-trivial: the repository's test report
     (`decode_airporne_position_with_reference`, 8D40058B58C901375147EFD09357, even, reference 49.0 / 6.0): the exact
     floor argument is 8.3626…, more than `10⁻¹²` away from an integer, so the computed index is `j = 8`
@@ -345,5 +393,18 @@ example {fl : ℚ → ℚ} (R : Rounding fl) : fIdx fl 49 (fDLat fl 360 ⟨.even
   have f : ⌊(411041 / 49152 : ℚ)⌋ = 8 := by rw [Int.floor_eq_iff]; norm_num
   rw [e, f] at h
   exact h (by norm_num) (by norm_num)
+
+/-- … in particular for the real rounding: the IEEE-754 binary64 computation of the index returns `8`; and `fl64`
+    is not the identity (`1/10 ↦ 3602879701896397 / 2^55`), so the `…_ieee` corollaries are not the `fl = id`
+    instance -/
+example :
+    fIdx fl64 49 (fDLat fl64 360 ⟨.even, 39848, 83951⟩) 39848 = 8 ∧ fl64 (1 / 10) ≠ 1 / 10 := by
+  have h := (local_lat_float_close_ieee 360 (Or.inl rfl) ⟨.even, 39848, 83951⟩ (by decide) 49
+    (by rw [abs_le]; constructor <;> norm_num)).2.1
+  have e : gIdxArg 49 (dLatOf 360 ⟨.even, 39848, 83951⟩) (Msg.lat ⟨.even, 39848, 83951⟩) = 411041 / 49152 := by
+    unfold gIdxArg dLatOf; norm_num
+  have f : ⌊(411041 / 49152 : ℚ)⌋ = 8 := by rw [Int.floor_eq_iff]; norm_num
+  rw [e, f] at h
+  exact ⟨h (by norm_num) (by norm_num), by rw [Proofs.IeeeRound.fl64_one_tenth]; norm_num⟩
 
 end Rs1090.Props.C05
